@@ -150,8 +150,123 @@ async<int> pool_setter(gate *g, int v) {
     co_return 0;
 }
 
+// ---------- op 6: self-owned operation: the frame is the only owner of the state holding the future it resolves ----------
+struct OpState {
+    future<int> f;
+};
+async<int> owned_body(std::shared_ptr<OpState> st, long susp, long v) {
+    if (susp) co_await cocls::pause();
+    co_return (int)v;
+}
+struct cb_awaiter : cocls::awaiter {
+    future<int> *fut = nullptr;
+    long seen = -1, calls = 0;
+    cb_awaiter() {
+        set_resume_fn([](cocls::awaiter *me, void *) noexcept -> cocls::suspend_point<void> {
+            auto *self = static_cast<cb_awaiter *>(me);
+            ++self->calls;
+            try { self->seen = self->fut->value(); } catch (...) { self->seen = -2; }
+            return {};
+        });
+    }
+};
+
+// ---------- op 7 / 8: result types whose constructor throws, bodies ending with (a type derived from) await_canceled_exception ----------
+struct picky {
+    long v;
+    picky(long x) : v(x) { if (x < 0) throw api_exc{-x}; }
+};
+struct my_cancel : cocls::await_canceled_exception {
+    long code;
+    explicit my_cancel(long c) : code(c) {}
+};
+async<picky> picky_body(long v, long susp) {
+    if (susp) co_await cocls::pause();
+    co_return v;                       // picky is constructed inside the bound future
+}
+async<int> cancel_body(long kind, long code, gate *g) {
+    if (kind == 0) throw my_cancel(code);
+    int x = co_await g->f;             // promise dropped: await_canceled_exception leaves the body unhandled
+    co_return x;
+}
+// outcome of reading a resolved future: v (value) | 1000+e (api_exc) | 3000+code (my_cancel) | 2000 (plain canceled, future holds an
+// exception) | 2001 (canceled because the future has NO value at all)
+template <typename F> long outcome(F &f, long (*val)(decltype(f.value()) &)) {
+    bool has = f.has_value();
+    try { return val(f.value()); }
+    catch (api_exc &e) { return 1000 + e.e; }
+    catch (my_cancel &e) { return 3000 + e.code; }
+    catch (cocls::await_canceled_exception &) { return has ? 2000 : 2001; }
+}
+long val_picky(picky &p) { return p.v; }
+long val_int(int &x) { return x; }
+
+template <typename T, typename Mk, typename Val> async<long> awaiting_mode(Mk mk, Val val) {
+    try {
+        decltype(auto) x = co_await mk();
+        co_return val(x);
+    } catch (api_exc &e) { co_return 1000 + e.e; }
+    catch (my_cancel &e) { co_return 3000 + e.code; }
+    catch (cocls::await_canceled_exception &) { co_return 2000; }
+}
+
+// runs coroutine `mk()` (an async<T>) in start mode 0 join | 1 start() | 2 start(promise) | 3 future ctor | 4 co_await
+template <typename T, typename Mk, typename Val> long run_mode(long mode, Mk mk, Val val) {
+    auto rd = [&](future<T> &f) -> long {
+        bool has = f.has_value();
+        try { return val(f.value()); }
+        catch (api_exc &e) { return 1000 + e.e; }
+        catch (my_cancel &e) { return 3000 + e.code; }
+        catch (cocls::await_canceled_exception &) { return has ? 2000 : 2001; }
+    };
+    switch (mode) {
+        case 0: {
+            try { decltype(auto) x = mk().join(); return val(x); }
+            catch (api_exc &e) { return 1000 + e.e; }
+            catch (my_cancel &e) { return 3000 + e.code; }
+            catch (cocls::await_canceled_exception &) { return 2000; }
+        }
+        case 1: { future<T> f = mk().start(); return rd(f); }
+        case 2: { future<T> f; auto p = f.get_promise(); { auto a = mk(); a.start(p); } return rd(f); }
+        case 3: { future<T> f(mk()); return rd(f); }
+        default: return awaiting_mode<T>(mk, val).join();
+    }
+}
+
 void run_op(const std::vector<long> &op) {
     auto rej = [] { vh::print_obs({1}); };
+    if (op.size() == 3 && op[0] == 6) {
+        long susp = op[1], v = op[2];
+        if (susp < 0 || susp > 1) return rej();
+        cb_awaiter cb;
+        {
+            auto st = std::make_shared<OpState>();
+            cb.fut = &st->f;
+            auto p = st->f.get_promise();
+            st->f.subscribe(&cb);
+            auto a = owned_body(st, susp, v);
+            st.reset();                 // from now on the coroutine frame is the only owner of the state
+            a.start(p);                 // suspend point discarded: runs now
+        }
+        vh::print_obs({0, cb.seen, cb.calls});
+        return;
+    }
+    if (op.size() == 4 && op[0] == 7) {
+        long mode = op[1], susp = op[2], v = op[3];
+        if (mode < 0 || mode > 4 || susp < 0 || susp > 1) return rej();
+        long r = run_mode<picky>(mode, [&] { return picky_body(v, susp); }, [](picky &p) { return p.v; });
+        vh::print_obs({0, r});
+        return;
+    }
+    if (op.size() == 4 && op[0] == 8) {
+        long mode = op[1], kind = op[2], code = op[3];
+        if (mode < 0 || mode > 4 || kind < 0 || kind > 1) return rej();
+        gate g;
+        if (kind == 1) g.p.set_value(cocls::drop);
+        long r = run_mode<int>(mode, [&] { return cancel_body(kind, code, &g); }, [](int &x) { return (long)x; });
+        vh::print_obs({0, r});
+        return;
+    }
     if (op.size() == 2 && op[0] == 3) {
         long depth = op[1];
         if (depth < 0 || depth > 1000000) return rej();
